@@ -75,6 +75,20 @@ theorem sem_residualCondition {r cond : Expr} (m : Mapper) (preq : PRequest) (pe
     intro n; simpa [evaluate] using sem_lit (.bool true) m preq pes env n
   exact sem_and m preq pes env req es hl (sem_and m preq pes env req es hl (sem_and m preq pes env req es hl h))
 
+/-- `agrees_wrap` for an arbitrary second-pass store -/
+theorem agrees_wrap_on (pes2 : PEntities) (id : String) (eff : Effect) {X cond' : Expr}
+    (hsem : ∀ n, Sem (pinterp σ (.ofConcrete req) pes2 [] n X) (evaluate req es [] cond'))
+    (hns : partialEvaluate σ (.ofConcrete req) pes2
+      { id := id, effect := eff, condition := residualCondition X, env := [] } ≠ .stuck) :
+    SatAgrees (partialEvaluate σ (.ofConcrete req) pes2
+      { id := id, effect := eff, condition := residualCondition X, env := [] }) (outcomeOf (evaluate req es [] cond')) := by
+  rw [partialEvaluate_eq] at hns ⊢
+  simp only at hns ⊢
+  have h1 := sem_residualCondition req es σ (.ofConcrete req) pes2 [] hsem defaultFuel
+  have h2 := class_of_sem h1 hns
+  rw [outcomeOf_residualCondition] at h2
+  exact h2
+
 /-- the residual policy built from `X`, re-evaluated with σ, has the class of any `cond'` that `X` agrees with -/
 theorem agrees_wrap (id : String) (eff : Effect) {X cond' : Expr}
     (hsem : ∀ n, Sem (pinterp σ (.ofConcrete req) (.ofConcrete es) [] n X) (evaluate req es [] cond'))
